@@ -121,7 +121,7 @@ def parse_wire(out):
     codes = []
     pos = 0
     while pos < len(out):
-        m = re.match(rb"HTTP/1\.[01] (\d{3}) [^\r\n]*\r\n", out[pos:])
+        m = re.match(rb"HTTP/\d\.\d (\d{3}) [^\r\n]*\r\n", out[pos:])
         if not m:
             codes.append(-1)
             break
@@ -371,13 +371,13 @@ def ref_parse_request(raw):
     if not sep:
         return None
     lines = head.split(b"\r\n")
-    parts = lines[0].split(b" ")
+    parts = lines[0].split(b" ", 2)         # method SP target SP everything else
     if len(parts) != 3:
         return None
     fields = []
     for ln in lines[1:]:
         name, colon, val = ln.partition(b":")
-        if not colon or not name:
+        if not colon:
             return None
         fields.append((name, val.strip(b" \t")))
     return parts[0], parts[1], parts[2], fields
